@@ -6,6 +6,8 @@ from . import c06_roundtrip as _c06r
 from . import c11_decoys as _c11d
 from . import c14_directives as _c14d
 from . import e2e as _e2e
+from . import e2e_faults as _e2ef
+from . import e2e_signals as _e2es
 
 TECH = ("contract-based deductive verification: Verus discharges contracts woven into the real functions extracted from "
         "/repo on every run (units: %s); vacuity canary copies; failures mapped to the property by contract labels")
@@ -103,10 +105,20 @@ def _err(pid):
     return lambda tier, seed: _e2e.run_errors(pid, tier, seed)
 
 
-for _k in ("C01", "C03", "C04", "C05", "C06", "C08", "C13", "C15", "C16", "C17"):
+for _k in ("C01", "C03", "C04", "C05", "C06", "C08", "C11", "C12", "C13", "C14", "C15", "C16", "C17"):
     PROPS[_k]["fallback"] = [("e2e_bounded", _fam(_k))]
 for _k in ("C04", "C16"):
     PROPS[_k]["fallback"].append(("e2e_errors_bounded", _err(_k)))
+
+
+def _flt(pid):
+    return lambda tier, seed: _e2ef.run_faults(pid, tier, seed)
+
+
+PROPS["C07"]["fallback"] = [("e2e_bounded", _fam("C07")), ("e2e_faults_bounded", _flt("C07"))]
+PROPS["C08"]["fallback"].append(("e2e_faults_bounded", _flt("C08")))
+PROPS["C02"]["fallback"] = [("e2e_bounded", _fam("C02")), ("e2e_faults_bounded", _flt("C02")), ("e2e_signals_bounded", lambda tier, seed: _e2es.run_signals("C02", tier, seed))]
+PROPS["C18"]["fallback"] = [("e2e_signals_bounded", lambda tier, seed: _e2es.run_signals("C18", tier, seed))]
 for _k, _v in PROPS.items():
     _v.setdefault("technique", TECH % ", ".join(_v["units"]))
 
